@@ -27,6 +27,11 @@ def runC14 (op : String) (j : Json) : R Json := do
                       ("impl_spec", match impl with
                         | some rows => Json.bool (rows.length == peaks.length &&
                             (peaks.zip rows).all fun p => nearestOK pos pr p.1 ncw p.2)
+                        | none => Json.null),
+                      -- theorem `nearestOK_peak_first`: with pairwise distinct positions the first listed channel IS the peak
+                      ("impl_peak_first", match impl with
+                        | some rows => Json.bool (ncw == 0 || !(pos.eraseDups.length == pos.length) ||
+                            (peaks.zip rows).all fun p => p.2.head? == some p.1)
                         | none => Json.null)])
   | "depths" =>
     let ys ← getRats j "ys"; let peaks ← getNats j "peaks"; let nan ← getNats j "nan_idx"
